@@ -11,7 +11,8 @@ Layer 1  token safety: what the writer's tests accept is a token of the W3C Turt
 Layer 2  `get_checked_prefixed_pair`, `write_literal` (bare and quoted), indentation.
 Layer 3  graph-shape analysis: `build_lists`, `build_labelled`.
 Layer 4  collecting the dataset and classifying its subjects: nothing dropped, nothing invented.
-Layer 5  the writer: every `Root` subject of every graph is handed to `write_tree`.
+Layer 5  the writer: every `Root` subject of every graph is handed to `write_tree`; the nesting cap.
+Layer 6  streaming mode: which statements `convert_triple` hands to Rio's formatters.
 -/
 import SophiaModel.Model.Pretty
 import SophiaModel.Model.TurtleTokens
@@ -23,6 +24,7 @@ import SophiaProofs.Lemmas.PrettyLabelled
 import SophiaProofs.Lemmas.PrettyCycle
 import SophiaProofs.Lemmas.PrettyEmit
 import SophiaProofs.Lemmas.PrettyWriter
+import SophiaProofs.Lemmas.StreamSer
 
 namespace SophiaProofs.C04
 open SophiaModel Re Pretty
@@ -525,20 +527,21 @@ theorem roots_all_written_partial (cfg : Cfg) (quads : List Quad) (lists : Lists
   serialize_roots_done cfg quads lists sts w hl h
 
 /-- the nesting cap (`MAX_BNODE_NESTING`, /repo da7f8f8): a SubTree blank node met at the cap is labelled, pushed on
-`deferred` and described by a `write_tree` of its own after the Roots of the graph.  `write_graph`, unless it gives
-up (`fault`: iteration bound of the model / index outside the table), ends with an empty stack, and every entry that
-was deferred while the Roots were written is `Done` at the end (entries deferred by deferred trees too: the
-statement is proved for the loop from any state, `Lemmas.PrettyWriter.drain_done`). -/
-theorem deferred_all_written_partial (env : Env) (fuel : Nat) (w : W) :
-    (writeGraph env fuel w).fault = true ∨
-    ((writeGraph env fuel w).deferred = [] ∧
+`deferred` and described by a `write_tree` of its own after the Roots of the graph.  `write_graph`, started with an
+empty stack, ends with an empty stack, and every entry that was deferred while the Roots were written is `Done` at
+the end (entries deferred by deferred trees too: `Lemmas.PrettyWriter.drain_total` is about the loop from any state
+that keeps the stack discipline).  Unconditional: the model's iteration bound of the `while let Some(i) = pop()`
+loop is proved sufficient (every push adds a new label to `labelled`, so at most one push per table entry) and
+every stacked index is inside the table — the former `fault` escape is discharged. -/
+theorem deferred_all_written (env : Env) (fuel : Nat) (w : W) (h0 : w.deferred = []) :
+    (writeGraph env fuel w).deferred = [] ∧
       ∀ i ∈ (writeRoots env fuel w).deferred, ∀ e, (writeRoots env fuel w).sts[i]? = some e →
-        ∃ e', (writeGraph env fuel w).sts[i]? = some e' ∧ e'.st = .done ∧ e'.s = e.s) :=
-  writeGraph_deferred_done env fuel w
+        ∃ e', (writeGraph env fuel w).sts[i]? = some e' ∧ e'.st = .done ∧ e'.s = e.s :=
+  writeGraph_deferred_done env fuel w h0
 
 /-- … and at the end of `serialize`, on any stream of quads, nothing is left on the deferred stack -/
 theorem nothing_left_deferred (cfg : Cfg) (quads : List Quad) (w : W) (h : serialize cfg quads = .done w) :
-    w.fault = true ∨ w.deferred = [] :=
+    w.deferred = [] :=
   serialize_drained cfg quads w h
 
 /-- a chain `<x:s> <x:p> _:c0 . _:c0 <x:p> _:c1 . … _:c(n-1) <x:p> <x:o>` -/
@@ -565,5 +568,63 @@ example :
            some (.iri "x:g".toList)⟩]) with
      | .done w => !w.fault && w.sts.length == 4 && w.sts.all (fun e => e.st == .done)
      | .diverges => false) = true := by native_decide
+
+/-- FULL STATEMENT of `every_subject_once`, first half (DESIGN 4.4): at the end of `serialize` every entry of the subject
+table is `Done`.  Neither proved nor refuted: `roots_all_written_partial` gives it for the Roots, `deferred_all_written`
+for the blank nodes deferred at the nesting cap, `subtree_reached_written_partial` for every SubTree that `write_bnode`
+reaches; MISSING: that every SubTree / Annotation *is* reached from a written subject (its unique parent is a Root, a
+reached SubTree, a collection item or an annotation — a well-founded argument over `cycle_has_labelled_holds`,
+`list_sound` and the correctness of `find_subject` on the graph's range), and that the writers' fuel `fuelFor`
+suffices.  The driver reports the number of entries left as ghost `undone` for every request. -/
+def EverySubjectWritten : Prop :=
+  ∀ (cfg : Cfg) (quads : List Quad) (w : W), serialize cfg quads = .done w → w.fault = false → ∀ e ∈ w.sts, e.st = .done
+
+/-- `write_bnode` reaching an unlabelled blank node (not a collection head) whose entry in the current graph is a
+`SubTree`: afterwards the entry is `Done` — its property list was written between `[` and `]` — or, at the nesting
+cap, it is on the deferred stack, which `deferred_all_written` empties through `write_tree` -/
+theorem subtree_reached_written_partial (env : Env) (f : Nat) (w : W) (l : Str) (i : Nat) (e : STEntry)
+    (hlist : listsRemove w.lists (.bnode l) = none)
+    (hlab : (isLabelled env.lab (.bnode l) || isLabelled w.labx (.bnode l)) = false)
+    (hfind : w.findSt (.bnode l) = some i) (he : w.sts[i]? = some e) (hst : e.st = .subTree) :
+    (∃ e', (writeBnode env (f + 1) w (.bnode l)).sts[i]? = some e' ∧ e'.st = .done ∧ e'.s = e.s) ∨
+      i ∈ (writeBnode env (f + 1) w (.bnode l)).deferred :=
+  writeBnode_subTree_reached env f w l i e hlist hlab hfind he hst
+
+/-! ## Layer 6 — streaming (non-pretty) mode: `rio/src/serializer.rs` -/
+
+open StreamSer Lemmas.StreamSer
+
+/-- `rio_format_quads` hands a statement to Rio's formatter iff it is in the stream and is a strict RDF-star
+statement (`StrictQuad`: the inductive specification, independent of `convert_triple`'s recursion) with an absent /
+IRI / blank-node graph name: nothing representable is skipped, nothing else is written -/
+theorem stream_keeps_exactly_strict (qs : List Quad) (q : Quad) : q ∈ streamQuads qs ↔ q ∈ qs ∧ StrictQuad q := by
+  unfold streamQuads
+  rw [List.mem_filter, keep_iff]
+
+/-- … in stream order, each as often as it occurs (the kept statements are a sublist of the stream) -/
+theorem stream_order (qs : List Quad) : List.Sublist (streamQuads qs) qs := List.filter_sublist
+
+/-- for the datasets the property quantifies over (strict RDF / RDF-star) streaming mode formats every statement,
+exactly as often as the source yields it and in its order: `rio_format_quads` is the identity on them -/
+theorem stream_strict_identity (qs : List Quad) (h : ∀ q ∈ qs, StrictQuad q) : streamQuads qs = qs := by
+  unfold streamQuads
+  exact List.filter_eq_self.mpr (fun q hq => (keep_iff q).mpr (h q hq))
+
+/-- the same for `rio_format_triples` (Turtle: no graph name is looked at) -/
+theorem stream_triples_strict_identity (qs : List Quad)
+    (h : ∀ q ∈ qs, SubjOk q.s ∧ (∃ i, q.p = .iri i) ∧ ObjOk q.o) : streamTriples qs = qs := by
+  unfold streamTriples
+  refine List.filter_eq_self.mpr (fun q hq => ?_)
+  obtain ⟨hs, hp, ho⟩ := h q hq
+  simp only [rioTriple, Bool.and_eq_true]
+  exact ⟨⟨rio_of_subj hs, (isIri_iff _).mpr hp⟩, rio_of_obj ho⟩
+
+-- non-vacuity: a nested quoted triple is kept, a variable subject / a literal graph name are skipped
+example : (streamQuads
+    [⟨.triple (.triple (.bnode "b".toList) (.iri "x:p".toList) (.lit "1".toList "x:d".toList)) (.iri "x:q".toList) (.iri "x:o".toList),
+        .iri "x:r".toList, .lang "a".toList "en".toList, some (.bnode "g".toList)⟩,
+     ⟨.var "x".toList, .iri "x:p".toList, .iri "x:o".toList, none⟩,
+     ⟨.iri "x:s".toList, .iri "x:p".toList, .iri "x:o".toList, some (.lit "g".toList "x:d".toList)⟩,
+     ⟨.iri "x:s".toList, .bnode "p".toList, .iri "x:o".toList, none⟩]).length = 1 := by decide
 
 end SophiaProofs.C04
